@@ -334,30 +334,34 @@ let conc_case (tree : string) (explicit : bool) (plan : string) (obs : string) :
 (* race cases: finite trees, bare leaves, many iterations; every iteration must show the whole
    token multiset, the finish time, a final Left of 0, one callback, no negative or oversized
    Left, per-caller monotone times and stability after exhaustion *)
-let race_case (tree : string) (obs : string) : string * string * bool =
+(* srace ([self] = true): no Start, the overlapping first Next calls start the schedule; times are relative
+   to the start instant re-derived from the final finish time, extra field start=1 *)
+let race_case ?(self = false) (tree : string) (obs : string) : string * string * bool =
   leaf_hyp_ok := true;
   let c = cfg_of (parse_tree tree) in
   let fl = flatten_cfg c in
   let (its, fin) = items_from z0 fl in
   let render toks fin lq =
     let toks = List.sort ZT.compare (List.map zt_of_z toks) in
-    Printf.sprintf "tok=%s fin=%s lq=%s cb=1 lneg=0 lover=0 mono=1 stable=1"
-      (if toks = [] then "-" else String.concat "," (List.map ZT.to_string toks)) (zs fin) lq in
+    Printf.sprintf "tok=%s fin=%s lq=%s cb=1%s lneg=0 lover=0 mono=1 stable=1"
+      (if toks = [] then "-" else String.concat "," (List.map ZT.to_string toks)) (zs fin) lq
+      (if self then " start=1" else "") in
   let spec =
     if List.exists is_window its then "unsupported-unlimited-part"
     else render (List.filter_map (function IT t -> Some t | IW _ -> None) its) fin "0" in
   let fuel = S (size_cfg c) in
   let pred =
-    match build fuel past c with
+    let now = if self then z0 else past in
+    match build fuel now c with
     | Ok s0 ->
-        (match s_start z0 s0 with
+        (match (if self then Ok s0 else s_start z0 s0) with
          | Ok s1 ->
              let rec drain s toks n =
                if n > 100000 then "model-does-not-finish" else
-               match s_next fuel past s with
+               match s_next fuel now s with
                | Ok ((s', t), true) -> drain s' (t :: toks) (n + 1)
                | Ok ((s', t), false) ->
-                   (match s_left fuel past s' with
+                   (match s_left fuel now s' with
                     | Ok (_, k) -> render toks t (zs k)
                     | _ -> "left-panics")
                | _ -> "next-panics" in
@@ -374,7 +378,23 @@ let race_case (tree : string) (obs : string) : string * string * bool =
       while !i < Array.length a && !i < Array.length b && a.(!i) = b.(!i) do incr i done;
       let cut s = if String.length s > 60 then String.sub s 0 60 ^ "..." else s in
       let got = if !i < Array.length a then a.(!i) else "end" in
-      if got = "var" then "BAD:iterations-differ " ^ cut obs
+      if got = "var" then begin
+        (* name the first field of the deviating iteration that is not what the stream says *)
+        let dev =
+          match Str.bounded_split (Str.regexp_string " VERSUS ") obs 2 with
+          | [fst; snd] ->
+              let fstf = (match split_blank fst with "var" :: r -> r | r -> r) in
+              let pick l = (match List.find_opt (fun (x, y) -> x <> y)
+                                    (List.filter_map (fun x -> x)
+                                       (List.mapi (fun k x -> if k < Array.length b then Some (x, b.(k)) else None) l)) with
+                            | Some (x, _) -> Some (List.hd (String.split_on_char '=' x))
+                            | None -> None) in
+              (match pick (split_blank snd) with
+               | Some f -> f
+               | None -> (match pick fstf with Some f -> f | None -> "?"))
+          | _ -> "?" in
+        Printf.sprintf "BAD:iterations-differ-in-%s %s" dev (cut obs)
+      end
       else Printf.sprintf "BAD:race got %s want %s" (cut got) (cut (if !i < Array.length b then b.(!i) else "end"))
     end in
   (pred, v, List.length its >= 1)
